@@ -1006,7 +1006,7 @@ def r_mgr_self(e, R):
             dead_ok = g.path_exists(t, progress, avoid=[t], start_labels=[dead], use_exc=False)
             R.check(dead_ok, "R-MGR-SELF",
                     f"{f.short}: respawn gated on the executor weak reference has a progress/fail-all effect on the dead branch",
-                    f.short, norm(t.ast),
+                    f.short, "respawn gated on <executor weak reference>() being alive",  # role-based: local names do not matter
                     "the manager re-spawns workers only while the executor object is alive; once the executor was "
                     "garbage collected (or is being collected) and all workers idled out, pending work is never run "
                     "and never failed", e.loc(f, t.ast))
